@@ -12,8 +12,10 @@
 -/
 import MantraDex.Model.System
 import MantraDex.Proofs.NumLemmas
+import MantraDex.Proofs.Post
 
 set_option linter.unusedSimpArgs false
+set_option linter.tactic.unusedName false
 
 namespace MantraDex.C20
 open MantraDex
@@ -21,14 +23,15 @@ open MantraDex
 /-- a transaction either commits or leaves the world exactly as it was -/
 theorem step_error_restores (w : World) (tx : Tx) (k : Option Nat) (e : Err)
     (h : runTx w tx k = .error e) : step w tx k = w := by
-  sorry
+  unfold step; rw [h]
 
 /-- a failing sub-message sent with `never` or `success` aborts the enclosing execution -/
 theorem failing_submsg_aborts (fuel : Nat) (w : World) (c : Addr) (sm : SubMsg) (rest : List SubMsg)
     (e : Err) (hmode : sm.replyOn = .never ∨ sm.replyOn = .success)
     (h : execMsg fuel w c sm.msg = .error e) :
     execSubs (fuel + 1) w c (sm :: rest) = .error e := by
-  sorry
+  rw [execSubs, h]
+  rcases hmode with hm | hm <;> simp [hm, ReplyOn.onError]
 
 /-- the allowed shapes of a pool-manager sub-message -/
 def PmSubOk (sm : SubMsg) : Prop :=
@@ -36,12 +39,79 @@ def PmSubOk (sm : SubMsg) : Prop :=
   (sm.replyOn = .success ∧ sm.id = C.SINGLE_SIDE_REPLY_ID ∧
     ∃ ask ms pid funds, sm.msg = .wasmExec PM (.pm (.swap ask none ms none pid)) funds)
 
+/-! ### helper: "every emitted sub-message satisfies `P`" as a post-condition -/
+
+/-- all sub-messages of a successful handler result satisfy `P` -/
+abbrev Good {σ : Type} (P : SubMsg → Prop) (x : R (σ × Response)) : Prop :=
+  Post (fun y => ∀ sm ∈ y.2.msgs, P sm) x
+
+theorem ofMsgs_never (ms : List Msg) (attrs : List (String × String)) :
+    ∀ sm ∈ (Response.ofMsgs ms attrs).msgs, sm.replyOn = .never := by
+  intro sm h
+  simp only [Response.ofMsgs, List.mem_map] at h
+  obtain ⟨m, _, rfl⟩ := h
+  rfl
+
+theorem pmok_ofMsgs (ms : List Msg) (attrs : List (String × String)) :
+    ∀ sm ∈ (Response.ofMsgs ms attrs).msgs, PmSubOk sm :=
+  fun sm h => Or.inl (ofMsgs_never ms attrs sm h)
+
+macro_rules | `(tactic| pclose) => `(tactic| (intro sm h; simp at h; done))
+macro_rules | `(tactic| pclose) => `(tactic| apply pmok_ofMsgs)
+
+theorem good_createPool {s env funds denoms decimals fees pt id} :
+    Good PmSubOk (createPool s env funds denoms decimals fees pt id) := by
+  unfold createPool
+  repeat' pstep
+
+theorem good_swap {s env sender funds ask b ms recv pid} :
+    Good PmSubOk (swapHandler s env sender funds ask b ms recv pid) := by
+  unfold swapHandler
+  repeat' pstep
+
+theorem good_withdraw {s env sender funds pid} :
+    Good PmSubOk (withdrawLiquidity s env sender funds pid) := by
+  unfold withdrawLiquidity
+  repeat' pstep
+
+theorem good_execSwapOps {s env sender funds ops mr r ms} :
+    Good PmSubOk (execSwapOps s env sender funds ops mr r ms) := by
+  unfold execSwapOps
+  repeat' pstep
+
+theorem good_pmUpdateConfig {s env sender fc fm cf t} :
+    Good PmSubOk (pmUpdateConfig s env sender fc fm cf t) := by
+  unfold pmUpdateConfig
+  repeat' pstep
+
+theorem good_provide {s env sender funds ls ss r pid u l} (henv : env.self = PM) :
+    Good PmSubOk (provideLiquidity s env sender funds ls ss r pid u l) := by
+  unfold provideLiquidity
+  repeat' pstep
+  -- what is left is the single-asset branch with its reply-on-success inner swap
+  apply post_pure
+  intro sm h
+  simp only [List.mem_singleton] at h
+  subst h
+  exact Or.inr ⟨rfl, rfl, _, _, _, _, by rw [henv]⟩
+
+theorem good_pmExecute {s env sender funds m} (henv : env.self = PM) :
+    Good PmSubOk (pmExecute s env sender funds m) := by
+  cases m <;> simp only [pmExecute]
+  · exact good_createPool
+  · exact good_provide henv
+  · exact good_swap
+  · exact good_withdraw
+  · exact good_execSwapOps
+  · apply post_bind; intro _ _; exact good_pmUpdateConfig
+  · repeat' pstep
+
 /-- every sub-message emitted by any pool-manager `execute` is `never`, or the single-asset
     deposit's inner swap -/
 theorem pm_execute_reply_modes {s s' : PmState} {env : PmEnv} {sender : Addr} {funds : List Coin}
     {m : PmMsg} {r : Response} (henv : env.self = PM)
-    (h : pmExecute s env sender funds m = .ok (s', r)) : ∀ sm ∈ r.msgs, PmSubOk sm := by
-  sorry
+    (h : pmExecute s env sender funds m = .ok (s', r)) : ∀ sm ∈ r.msgs, PmSubOk sm :=
+  (good_pmExecute henv).out (s', r) h
 
 /-- the pool manager's reply handler accepts only the single-side id, needs the buffer, clears it,
     and continues with one `never` message (the self-call that deposits both halves) -/
@@ -49,28 +119,106 @@ theorem pm_reply_shape {s s' : PmState} {env : PmEnv} {id : Nat} {r : Response}
     (h : pmReply s env id = .ok (s', r)) :
     id = C.SINGLE_SIDE_REPLY_ID ∧ s.buffer.isSome ∧ s'.buffer = none ∧ s'.pools = s.pools ∧
     ∃ m, r.msgs = [{ msg := m, replyOn := .never, id := 0 }] := by
-  sorry
+  unfold pmReply at h
+  split at h
+  next hid =>
+    split at h
+    next => cases h
+    next b hb =>
+      split at h
+      · cases h
+      · split at h
+        · cases h
+        · cases h
+          exact ⟨hid, by simp [hb], rfl, rfl, _, rfl⟩
+  next => cases h
 
 /-- the allowed shapes of a farm-manager sub-message -/
 def FmSubOk (sm : SubMsg) : Prop :=
   sm.replyOn = .never ∨
   (sm.replyOn = .error ∧ sm.id = C.CLOSE_FARMS_ERR_REPLY_CODE ∧ ∃ to cs, sm.msg = .bankSend to cs)
 
+theorem closeFarms_aux (fs : List Farm) : ∀ (st : FmState × List SubMsg),
+    (∀ sm ∈ st.2, FmSubOk sm) →
+    ∀ sm ∈ (fs.foldl (fun (st : FmState × List SubMsg) f =>
+      let s' := { st.1 with farms := st.1.farms.filter (·.id != f.id) }
+      let rem := f.assetAmount - f.claimed
+      if rem > 0 then
+        (s', st.2 ++ [{ msg := .bankSend f.owner [⟨f.assetDenom, rem⟩], replyOn := .error,
+                        id := C.CLOSE_FARMS_ERR_REPLY_CODE }])
+      else (s', st.2)) st).2, FmSubOk sm := by
+  induction fs with
+  | nil => intro st h; exact h
+  | cons f fs ih =>
+    intro st h
+    rw [List.foldl_cons]
+    apply ih
+    dsimp only
+    split
+    · intro sm hm
+      simp only [List.mem_append, List.mem_singleton] at hm
+      rcases hm with hm | rfl
+      · exact h sm hm
+      · exact Or.inr ⟨rfl, rfl, _, _, rfl⟩
+    · exact h
+
 /-- `close_farms` emits only reply-on-error bank refunds -/
 theorem closeFarms_reply_modes (s : FmState) (fs : List Farm) :
     ∀ sm ∈ (closeFarms s fs).2, FmSubOk sm := by
-  sorry
+  unfold closeFarms
+  apply closeFarms_aux
+  intro sm h; cases h
+
+theorem fmok_ofMsgs (ms : List Msg) (attrs : List (String × String)) :
+    ∀ sm ∈ (Response.ofMsgs ms attrs).msgs, FmSubOk sm :=
+  fun sm h => Or.inl (ofMsgs_never ms attrs sm h)
+
+macro_rules | `(tactic| pclose) => `(tactic| apply fmok_ofMsgs)
+
+theorem good_createFarm {s env sender funds p} : Good FmSubOk (createFarm s env sender funds p) := by
+  unfold createFarm
+  repeat' pstep
+  all_goals
+    apply post_pure
+    intro sm h
+    simp only [List.mem_append, List.mem_map] at h
+    rcases h with ⟨m, _, rfl⟩ | h
+    · exact Or.inl rfl
+    · exact closeFarms_reply_modes _ _ sm h
+
+theorem good_closeFarm {s sender funds id} : Good FmSubOk (closeFarm s sender funds id) := by
+  unfold closeFarm
+  repeat' pstep
+  apply post_pure
+  exact closeFarms_reply_modes _ _
+
+theorem good_fmExecute {s env sender funds m} :
+    Good FmSubOk (fmExecute s env sender funds m) := by
+  cases m <;> simp only [fmExecute]
+  · exact good_createFarm
+  · unfold expandFarm; repeat' pstep
+  · exact good_closeFarm
+  · unfold fmClaim; repeat' pstep
+  · unfold createPosition; repeat' pstep
+  · unfold expandPosition; repeat' pstep
+  · unfold closePosition; repeat' pstep
+  · unfold withdrawPosition; repeat' pstep
+  · unfold fmUpdateConfig; repeat' pstep
+  · repeat' pstep
 
 /-- every sub-message emitted by any farm-manager `execute` is `never`, or a close-farm refund -/
 theorem fm_execute_reply_modes {s s' : FmState} {env : FmEnv} {sender : Addr} {funds : List Coin}
     {m : FmMsg} {r : Response}
-    (h : fmExecute s env sender funds m = .ok (s', r)) : ∀ sm ∈ r.msgs, FmSubOk sm := by
-  sorry
+    (h : fmExecute s env sender funds m = .ok (s', r)) : ∀ sm ∈ r.msgs, FmSubOk sm :=
+  good_fmExecute.out (s', r) h
 
 /-- the farm manager's reply handler only logs: no state change, no further messages -/
 theorem fm_reply_no_effect {s s' : FmState} {id : Nat} {r : Response} (h : fmReply s id = .ok (s', r)) :
     id = C.CLOSE_FARMS_ERR_REPLY_CODE ∧ r.msgs = [] := by
-  sorry
+  unfold fmReply at h
+  split at h
+  next hid => cases h; exact ⟨hid, rfl⟩
+  next => cases h
 
 /-- a failed close-farm refund is tolerated: execution continues with the remaining sub-messages
     from the state *without* the refund (only the fault counter moves) -/
@@ -80,6 +228,12 @@ theorem failed_refund_tolerated (fuel : Nat) (w : World) (to : Addr) (cs : List 
     execSubs (fuel + 2) w FM
         ({ msg := .bankSend to cs, replyOn := .error, id := C.CLOSE_FARMS_ERR_REPLY_CODE } :: rest) =
       execSubs (fuel + 1) { w with bank := { w.bank with calls := w.bank.calls + 1 } } FM rest := by
-  sorry
+  have hc : ∀ w' : World, callReply w' FM C.CLOSE_FARMS_ERR_REPLY_CODE = .ok (w', {}) := by
+    intro w'; rfl
+  rw [execSubs]
+  simp only [h, ReplyOn.onError, if_true, Msg.callsWhenFailed, hc]
+  show (execSubs (fuel + 1) _ FM [] >>= fun w3 => execSubs (fuel + 1) w3 FM rest) = _
+  rw [execSubs]
+  rfl
 
 end MantraDex.C20
